@@ -348,12 +348,12 @@ package dag
 //@   trusted
 //@   benign
 //@ func (*dag).findBetweenLC
-//@   prop C08
-//@   assume-benign
+//@   trusted
+//@   benign
 //@   ensures isNilIface(result.1) ==> forall k int :: 0 <= k && k < len(result.0) ==> !isNilIface(result.0[k])
 //@ func (*treeStore).getZeroTo
-//@   prop C08
-//@   assume-benign
+//@   trusted
+//@   benign
 //@   ensures !isNilIface(result.0)
 //@ func (tree.Data).*
 //@   trusted
@@ -377,6 +377,7 @@ package dag
 //@        && arg(2) == ret(call (tree.Tree).Root #2) && arg(call (tree.Tree).Root #2, 0) == calculatedXorTree
 //@        && did(call (tree.Data).Empty #1) && ret(call (tree.Data).Empty #1) == false
 //@   call (*treeStore).writeWithoutLock #1 requires [persisted-in-the-same-tx] arg(1) == txn && arg(0) == f.state.xorTree && isNilIface(ret(call (tree.Tree).Replace #1))
+//@   ensures [replacement-is-persisted] isNilIface(result) && did(call (tree.Tree).Replace #1) ==> did(call (*treeStore).writeWithoutLock #1) && isNilIface(ret(call (*treeStore).writeWithoutLock #1))
 //@   ensures [nothing-replaced-when-the-page-agrees] did(call (tree.Data).Empty #1) && ret(call (tree.Data).Empty #1) == true ==> !did(call (tree.Tree).Replace #1) && !did(call (*treeStore).writeWithoutLock #1)
 
 //@ func (*xorTreeRepair).checkPage
